@@ -33,9 +33,9 @@ impl Error {
                 diagnostic = diagnostic.with_message(msg);
                 labels.push(Label::secondary(file, range))
             }
-            Error::UnrecognizedToken(file, index) => {
+            Error::UnrecognizedToken(file, span) => {
                 diagnostic = diagnostic.with_message("Unrecognized token");
-                labels.push(Label::secondary(*file, *index..index + 1).with_message("here"));
+                labels.push(Label::secondary(*file, span.lo..span.hi).with_message("here"));
             }
             Error::UnexpectedToken(expected, found, location) => {
                 diagnostic = diagnostic.with_message("Unexpected token");
@@ -52,7 +52,7 @@ impl Error {
             }
             Error::UnrecognizedEscapeSequence(file, span) => {
                 diagnostic = diagnostic.with_message("Unrecognized escape sequence");
-                labels.push(Label::secondary(*file, span.lo..span.hi + 1).with_message("here"));
+                labels.push(Label::secondary(*file, span.lo..span.hi).with_message("here"));
             }
             Error::EmptyParentheses(location) => {
                 diagnostic = diagnostic.with_message("Parentheses are empty");
